@@ -11,7 +11,7 @@ PROPERTY_ID = "C14"
 RULE = ("case = domain (2D/3D, 1..6 per axis quick, one-layer and one-column domains included) + print axis and sign "
         "(all 4/6 directions) given both as a vector (2 or 3 components, any positive length, list/tuple/array/int "
         "entries) and as a string ('+x', 'x+', '-y', 'y-', upper case, bare axis letter) + nsampling (default, 3, 5, 9 "
-        "as admissible) + xi_0 in (0.05,0.95), p in [5,80] with Q = p + ln(ns)/ln(xi_0) >= 1, eps in [1e-8,1e-2] (or "
+        "as admissible) + xi_0 in (0.05,0.95) or the documented end point 0, p in [5,80] with Q = p + ln(ns)/ln(xi_0) >= 1, eps in [1e-8,1e-2] or the documented end point 0 (int or float) (or "
         "all defaults) + a field kind in [0,1] (random, 0/1 plateaus, solid/void boxes, all solid, solid above a void layer, columns) "
         "from default_rng(payload_seed) + a mirror axis and an axis pair for the metamorphic relations. Oracle: own "
         "element-by-element loops of Langelaar's scheme in (i,j,k) coordinates. Non-trivial = at least 2 layers in "
@@ -66,14 +66,15 @@ def strategy(tier):
         if draw(st.integers(0, 4)) == 0:
             c["params"] = None                       # all defaults: xi_0 = 0.5, p = 40, eps = 1e-4
         else:
-            xi0 = draw(st.one_of(st.sampled_from([0.5, 0.1, 0.9]),
+            # xi_0 = 0 is the closed end of the documented range 0 <= xi_0 <= 1 (then Q = p)
+            xi0 = draw(st.one_of(st.sampled_from([0.5, 0.1, 0.9, 0, 0.0]),
                                  st.floats(0.06, 0.94, allow_nan=False).map(lambda v: round(v, 3))))
-            pmin = max(5.0, 1.0 - math.log(nse) / math.log(xi0) + 1e-6)
+            pmin = max(5.0, 1.0 - (math.log(nse) / math.log(xi0) if xi0 > 0 else 0.0) + 1e-6)
             pmin = math.ceil(pmin * 100) / 100
             p = draw(st.one_of(st.floats(pmin, 80.0, allow_nan=False).map(lambda v: round(v, 2)),
                                st.integers(math.ceil(pmin), 80)))
             p = max(p, pmin)
-            eps = draw(st.sampled_from([1e-8, 1e-6, 1e-4, 1e-3, 1e-2]))
+            eps = draw(st.sampled_from([1e-8, 1e-6, 1e-4, 1e-3, 1e-2, 0, 0.0]))   # documented: eps >= 0
             c["params"] = {"xi_0": xi0, "p": p, "eps": eps}
         c["field"] = draw(st.sampled_from(["plateau", "plateau", "blocks", "blocks", "blocks", "rand", "solid",
                                              "void_layer", "void_layer", "columns", "columns"]))
@@ -180,7 +181,7 @@ def _stencil(dim, ns):
 def _reference(X, dim, axis, sign, ns, xi0, p, eps):
     """Langelaar's overhang scheme, element by element in (i,j,k) coordinates. Returns (Y, supports-of-each-element)."""
     n = X.shape
-    q = p + math.log(ns) / math.log(xi0)
+    q = p + (math.log(ns) / math.log(xi0) if xi0 > 0 else 0.0)
     shift = 100.0 * sys.float_info.min ** (1.0 / p)
     backshift = 0.95 * ns ** (1.0 / q) * shift ** (p / q)
     others = [t for t in range(3) if t != axis]
@@ -253,6 +254,10 @@ def check_case(case):
     xi0, p, eps = par["xi_0"], par["p"], par["eps"]
     labels = [f"dim{dim}", f"ns{ns}", "dir_" + ("+" if sign > 0 else "-") + AXN[axis], "field_" + case["field"],
               "params_default" if case["params"] is None else "params_drawn", "str_" + case["str"]]
+    if eps == 0:
+        labels.append("eps_zero")
+    if xi0 == 0:
+        labels.append("xi0_zero")
     if n[axis] >= 2:
         labels.append("layers_ge2")
     else:
@@ -300,7 +305,7 @@ def check_case(case):
     if vec_ok:
         Yv = _to3(yv, n)
         over = float(np.max(yv - x))
-        if over > math.sqrt(eps) / 2 * (1 + 1e-9):
+        if over > math.sqrt(eps) / 2 * (1 + 1e-9) + 1e-14:      # 1e-14: rounding of (x + s - |x - s|)/2 when eps = 0
             bad("bound:overshoot", f"max(y-x) = {over!r} > sqrt(eps)/2 = {math.sqrt(eps) / 2!r}")
         sl = [slice(None)] * 3
         sl[axis] = 0 if sign > 0 else n[axis] - 1
